@@ -203,6 +203,8 @@ package parser
 //@   goal keyed-by-own-name: result != nil ==> istype(result, *ast.ReserveStmt) && has(p.reserves, as(result, *ast.ReserveStmt).Name.Value)
 //@        && p.reserves[as(result, *ast.ReserveStmt).Name.Value] == as(result, *ast.ReserveStmt)
 //@ func (p *Parser) parseInsertStmt
+//@   call checkDuplicateInserts#0: bind dup
+//@   goal duplicates-are-always-checked: result != nil ==> !dup
 //@   call parseExpression#*: assert whole-expression-level: arg1 == LOWEST
 //@   ensures well-formed-or-error: len(p.errors) == old(len(p.errors)) ==> WFN(result)
 //@   use@post wfInsertStmtI(stmt)
@@ -384,6 +386,9 @@ package parser
 //@   use@post wfIdentifierI(as(result, *ast.Identifier))
 //@   decreases PD(p), 2
 //@ func (p *Parser) parseIntegerLiteral
+//@   call strconv.ParseInt#0: assert decimal-64-bit-signed: arg0 == p.curToken.Literal && arg1 == 10 && arg2 == 64
+//@   call strconv.ParseInt#0: bind parsedInt
+//@   goal value-is-the-parsed-literal: result != nil ==> as(result, *ast.IntegerLiteral).Value == parsedInt0
 //@   ensures well-formed-or-error: len(p.errors) == old(len(p.errors)) ==> WFN(result)
 //@   use@post wfIntegerLiteralI(as(result, *ast.IntegerLiteral))
 //@   call newError#*: assert line-of-the-current-token: arg1 == p.curToken.Pos.EndLine + 1
@@ -391,6 +396,9 @@ package parser
 //@   goal out-of-range-is-error: result == nil ==> len(p.errors) == old(len(p.errors)) + 1
 //@   goal value: result != nil ==> istype(result, *ast.IntegerLiteral) && as(result, *ast.IntegerLiteral).Token == p.curToken
 //@ func (p *Parser) parseFloatLiteral
+//@   call strconv.ParseFloat#0: assert parsed-as-float64: arg0 == p.curToken.Literal && arg1 == 64
+//@   call strconv.ParseFloat#0: bind parsedFloat
+//@   goal value-is-the-parsed-literal: result != nil ==> same(as(result, *ast.FloatLiteral).Value, parsedFloat0)
 //@   ensures well-formed-or-error: len(p.errors) == old(len(p.errors)) ==> WFN(result)
 //@   use@post wfFloatLiteralI(as(result, *ast.FloatLiteral))
 //@   call newError#*: assert line-of-the-current-token: arg1 == p.curToken.Pos.EndLine + 1
@@ -415,6 +423,7 @@ package parser
 //@   call newError#*: assert line-of-the-insert: arg1 == stmt.Token.Pos.EndLine + 1
 //@   requires ParInv(p) && stmt != nil && stmt.Name != nil
 //@   ensures duplicate-is-an-error: result ==> len(p.errors) == old(len(p.errors)) + 1
+//@   ensures says-whether-the-name-is-taken: result == old(has(p.inserts, stmt.Name.Value))
 //@   decreases PD(p), 2
 
 //@ func isWhitespace
